@@ -408,6 +408,13 @@ def parse_directives(
 
     if any(n in nullable_directives for n in directives_names):
         if not is_nullable(annotation):
+            if is_union(annotation):
+                # the field-level discriminator is only emitted for a bare Union:
+                # keep it on the Union that is now wrapped in Optional
+                annotation = cast(
+                    Annotation,
+                    annotate_nested_unions(cast(AnnotationSlice, annotation)),
+                )
             annotation = generate_nullable_annotation(annotation)
         return annotation, generate_constant(None)
 
